@@ -78,12 +78,16 @@ type bCase struct {
 	Blocks  int    `json:"blocks"`
 	CommitD int    `json:"commit_delay_us"`
 	CheckD  int    `json:"check_delay_us"`
+	Burst   bool   `json:"burst_mode"` // submitters pause until the pool is empty and fire right when a block is committed
 }
 
 func runOneB(c *verdict.Ctx, idx int, tmp string) {
 	r := c.Rand("c05b", idx)
 	bc := bCase{Idx: idx, Version: []string{"v0", "v1"}[r.Intn(2)], Client: []string{"local", "socket"}[r.Intn(2)], Recheck: r.Intn(4) != 0,
-		Subs: 4 + r.Intn(12), Blocks: c.N(8, 24), CommitD: []int{0, 200, 2000}[r.Intn(3)], CheckD: []int{0, 50, 500}[r.Intn(3)]}
+		Subs: 4 + r.Intn(12), Blocks: c.N(8, 24), CommitD: []int{0, 200, 2000}[r.Intn(3)], CheckD: []int{0, 50, 500}[r.Intn(3)], Burst: r.Intn(3) == 0}
+	if bc.Burst && bc.CheckD == 0 {
+		bc.CheckD = 300
+	}
 	var evMu sync.Mutex
 	var events []bEvent
 	hook := func(ev recapp.Event) {
@@ -137,7 +141,7 @@ func runOneB(c *verdict.Ctx, idx int, tmp string) {
 	}()
 	mp := wrapped
 	// submitters: few distinct keys, repeats are the norm
-	var stop int32
+	var stop, paused int32
 	var wg sync.WaitGroup
 	var submitted int64
 	for s := 0; s < bc.Subs; s++ {
@@ -146,6 +150,10 @@ func runOneB(c *verdict.Ctx, idx int, tmp string) {
 			defer wg.Done()
 			i := 0
 			for atomic.LoadInt32(&stop) == 0 {
+				if atomic.LoadInt32(&paused) != 0 {
+					time.Sleep(50 * time.Microsecond)
+					continue
+				}
 				i++
 				tx := types.Tx(fmt.Sprintf("s%d-%d=v", s%5, i%400))
 				_ = mp.CheckTx(tx, nil, mempl.TxInfo{SenderID: uint16(s + 1)})
@@ -157,6 +165,18 @@ func runOneB(c *verdict.Ctx, idx int, tmp string) {
 		}(s)
 	}
 	for b := 0; b < bc.Blocks; b++ {
+		if bc.Burst {
+			// quiet phase: no submissions until everything pending has been committed and the pool is empty ...
+			atomic.StoreInt32(&paused, 1)
+			for k := 0; k < 20 && mp.Size() > 0; k++ {
+				if _, err := chain.Step(chaingen.StepPlan{Txs: mp.ReapMaxBytesMaxGas(-1, -1)}); err != nil {
+					break
+				}
+			}
+			// ... then a burst of new transactions starts right when the next (empty) block is committed
+			atomic.StoreInt32(&paused, 0)
+			time.Sleep(time.Duration(r.Intn(300)) * time.Microsecond)
+		}
 		txs := mp.ReapMaxBytesMaxGas(20000, -1)
 		if _, err := chain.Step(chaingen.StepPlan{Txs: txs}); err != nil {
 			c.HarnessError("c05b case %d: step failed: %v", idx, err)
@@ -174,6 +194,9 @@ func runOneB(c *verdict.Ctx, idx int, tmp string) {
 	c.Eval()
 	c.Count("c05b.runs", 1)
 	c.Count("c05b.runs."+bc.Version+"."+bc.Client, 1)
+	if bc.Burst {
+		c.Count("c05b.runs.burst_mode", 1)
+	}
 	c.Count("c05b.txs_submitted", atomic.LoadInt64(&submitted))
 	// ---- oracle over the application-side history
 	openNew := 0 // new-tx checks called and not yet returned
